@@ -195,6 +195,16 @@ def relabelWith (w : World) (h : String) (f : C → R (List (Name × Name))) : E
       let o' := { o with c := c', attrs := o.attrs.map (fun p => (renameOf mapping p.1, p.2)) }
       (.ok mapping, w.setObj h o')
 
+/-- `relabelSimplex(s, q)`: the single-simplex form (ValueError when `q` is in use, KeyError when `s` is unknown) -/
+def relabelOneOp (w : World) (h : String) (s q : Name) : Except Err Unit × World :=
+  match w.obj? h with
+  | none => (.error .key, w)
+  | some o =>
+    match o.c.relabelSimplex s q with
+    | none => (.error .value, w)
+    | some c' =>
+      (.ok (), w.setObj h { o with c := c', attrs := o.attrs.map (fun p => (if p.1 = s then q else p.1, p.2)) })
+
 def relabelOp (w : World) (h : String) (ρ : List (Name × Name)) := relabelWith w h (fun c => relabel c (renameOf ρ))
 def relabelDisjointOp (w : World) (h other : String) : Except Err (List (Name × Name)) × World :=
   match w.obj? other with
